@@ -133,7 +133,7 @@ class Check:
             s._digest_e1(f, r)
 
     def _native(s, f, san=False):
-        return build.native_harness(s.d, os.path.join(VERIF, 'harness', f.harness), f.defs, san=san)
+        return build.native_harness(s.d, os.path.join(VERIF, 'harness', f.harness), f.defs, san=san, draws=bool(f.opts.get('sym_draws')))
 
     def _digest_e1(s, f, r):
         part = {'part': f.name, 'engine': 'E1 symex', 'harness': f.harness, 'entry': f.entry, 'defs': list(f.defs)}
